@@ -13,6 +13,10 @@ import ast, os
 MUTATORS = {"append", "extend", "insert", "pop", "remove", "clear", "update", "sort", "reverse", "setdefault", "popitem",
             "add_child", "add_attribute", "add_extras", "add_namespace", "remove_child", "remove_children", "remove_attribute",
             "remove_namespace", "replace_child", "shift", "set_nsmap", "fix_nsmap", "delete_node_instance", "set_node_instance"}
+# calls whose result is a new container / string owned by the calling function
+FRESH_CALLS = {"list", "dict", "set", "frozenset", "str", "tuple", "sorted", "defaultdict", "OrderedDict", "deque", "Counter", "bytearray"}
+FRESH_METHODS = {"fromkeys", "split", "rsplit", "splitlines", "strip", "lstrip", "rstrip", "replace", "format", "join", "lower", "upper",
+                 "defaultdict", "OrderedDict", "deque", "Counter", "findall"}
 CALLER_LISTS = {"errs", "descendants", "warnings", "evaluation", "children_names", "ancestry", "pruned", "id_register"}
 ENTRY = {
     "eml/validate.py": ["node", "tree"],
@@ -56,7 +60,8 @@ def fresh_locals(fn):
         if isinstance(n, ast.Assign) and len(n.targets) == 1 and isinstance(n.targets[0], ast.Name):
             v = n.value
             if isinstance(v, (ast.List, ast.Dict, ast.ListComp, ast.DictComp, ast.Constant, ast.JoinedStr, ast.BinOp, ast.Tuple, ast.Set)) or \
-               (isinstance(v, ast.Call) and isinstance(v.func, ast.Name) and v.func.id in ("list", "dict", "set", "str", "tuple")):
+               (isinstance(v, ast.Call) and isinstance(v.func, ast.Name) and v.func.id in FRESH_CALLS) or \
+               (isinstance(v, ast.Call) and isinstance(v.func, ast.Attribute) and v.func.attr in FRESH_METHODS):
                 fresh.add(n.targets[0].id)
     params = {a.arg for a in fn.args.args + fn.args.kwonlyargs}
     return fresh - params
